@@ -183,9 +183,17 @@ func indexOf(s, sub string) int {
 func c05Case(c *Ctx) {
 	gcfg := swarmGen(c.Plan, c.thorough())
 	gcfg.Files = c.Plan.Draw(3) == 0
+	bigChunks := c.Plan.Draw(4) == 0
+	if bigChunks {
+		gcfg.Splits = true
+	}
 	prog := Generate(c.Plan, gcfg)
 	vdr := []string{"disable", "rolling", "post", "strict"}[c.Plan.Draw(4)]
 	fcfg := &FCfg{MaxLen: 1 + c.Plan.Draw(3), MaxChunks: c.Plan.Draw(4), Salt: "c05"}
+	if bigChunks {
+		// chunk counts around the decimal-width boundary of chunk directory names
+		fcfg.MaxChunks = 9 + c.Plan.Draw(4)
+	}
 	flags := append(baseFlags(c.Plan), "--vdrmode="+vdr)
 	mk := func() *RunCfg {
 		cfg := &RunCfg{Prog: prog, FCfg: fcfg, MaxSteps: 80000, Flags: flags}
